@@ -26,15 +26,23 @@ def pad(obj, size):
     return b[:-1] + b" " * (size - len(b)) + b[-1:]
 
 
-def framed(body): return b"Content-Length: %d\r\n\r\n" % len(body) + body
+CT = b"Content-Type: application/vscode-jsonrpc; charset=utf-8\r\n"
+
+
+def framed(body, variant=0):
+    """variant 1/2: the optional Content-Type header field in front of / behind Content-Length (the specification fixes no order)"""
+    cl = b"Content-Length: %d\r\n" % len(body)
+    return {0: cl, 1: CT + cl, 2: cl + CT}[variant] + b"\r\n" + body
 
 
 def session_bytes(rng, kind):
     uri = "file:///c19/%s.spl" % rng.choice(["a", "ä€", "x%20y"])
+    headers = kind == "headers"
+    if headers: kind = "unicode"
     text = {"ascii": "proc main() {\n    var x: int;\n    x := 1;\n    printi(x);\n}\n",
             "unicode": "// käse € 😀 \U0001F600\nproc main() {\n    var x: int; // ünï\n    x := 'a' + 0x10;\n    undefined(x);\n}\n// €€€\n"}[kind if kind in ("ascii", "unicode") else "unicode"]
     msgs = []
-    def M(o, size=None): msgs.append(framed(pad(o, size) if size else json.dumps(o, ensure_ascii=False, separators=(",", ":")).encode()))
+    def M(o, size=None): msgs.append(framed(pad(o, size) if size else json.dumps(o, ensure_ascii=False, separators=(",", ":")).encode(), [1, 2, 1, 0][len(msgs) % 4] if headers else 0))
     M({"jsonrpc": "2.0", "id": 1, "method": "initialize", "params": {"capabilities": {"textDocument": {"publishDiagnostics": {}}}}})
     M({"jsonrpc": "2.0", "method": "initialized", "params": {}}, size=99 if kind == "sizes" else None)
     if kind == "sizes": M({"jsonrpc": "2.0", "method": "$/unknownNotification"}, size=100)
@@ -182,16 +190,16 @@ def run(ctx):
     binpath = server_bin("rel")
     jobs = []
     step = 1
-    for kind in ("ascii", "unicode"): jobs += [(kind, i, NCPU // 2, "two-way", ctx.seed, step) for i in range(NCPU // 2)]
+    for kind in ("ascii", "unicode", "headers"): jobs += [(kind, i, NCPU // 2, "two-way", ctx.seed, step) for i in range(NCPU // 2)]
     for p in pmap(worker, jobs): ctx.merge(p)
     jobs = []
-    for kind in ("ascii", "unicode", "sizes"): jobs += [(kind, i, 5, "k-way", ctx.seed, 8 if ctx.quick else 150) for i in range(5)]
+    for kind in ("ascii", "unicode", "sizes", "headers"): jobs += [(kind, i, 4, "k-way", ctx.seed, 8 if ctx.quick else 150) for i in range(4)]
     for p in pmap(worker, jobs): ctx.merge(p)
     check_huge(ctx, binpath)
     strace_sample(ctx, binpath)
     c = ctx.extra.get("counters", {})
     ctx.exhaustive = None
-    ctx.extra["two_way_part"] = {"sessions": ["ascii", "unicode"], "every_nth_byte": step, "complete": step == 1, "splits": c.get("two_way_splits")}
+    ctx.extra["two_way_part"] = {"sessions": ["ascii", "unicode", "headers (Content-Type in front of / behind Content-Length)"], "every_nth_byte": step, "complete": step == 1, "splits": c.get("two_way_splits")}
     ctx.rule = ("sessions with ASCII and non-ASCII document text (2-4-byte characters in text, comments and URI), frames with 2- to 6-digit Content-Length (99/100, 999/1000, 9999/10000, 99999/100000 bytes), "
                 "ending with shutdown + exit; every two-way split (every %s byte offset) incl. inside `\\r\\n\\r\\n`, inside the length digits and inside multi-byte characters; random 3..64-way splits; one byte per "
                 "write; each compared with the unsegmented run; distinct_nontrivial = distinct (mode, session, place of the cut / number of segments)" % ("" if step == 1 else "%dnd" % step))
